@@ -1,36 +1,45 @@
 -------------------------------- MODULE StopRA --------------------------------
-(* Backend stop under the C++ release/acquire model (C07: "every statement whose log call completed before the stop  *)
-(* was requested is written and flushed before the backend thread terminates").                                      *)
+(* Backend stop and flush handshakes under the C++ release/acquire model.                                             *)
+(* C07: "every statement whose log call completed before the stop was requested is written and flushed before the     *)
+(* backend thread terminates, including statements of threads that already exited";                                   *)
+(* C06: "when flush_log() returns, every statement the calling thread logged before the call has been written ... so   *)
+(* it can be read from the destination".                                                                              *)
 (*   logging thread X:  log call ... commit_write(): writer_pos.store(MoCommit)                                      *)
+(*                      flush_log(): a flush request through the queue carrying the address of a local atomic flag,    *)
+(*                                   then `while (!flag.load(MoFlushLoad))`                                           *)
 (*                      Backend::stop(): BackendWorker::stop(): _is_worker_running.exchange(false, MoStop); join      *)
+(*   logging thread Y:  logs, exits (ThreadContext::mark_invalid: _valid.store(false, MoInv)), is joined by X          *)
 (*   backend thread B:  while (_is_worker_running.load(MoLoop)) _poll();      [one BIter per evaluation of the head]  *)
-(*                      _exit(): until every queue is empty [writer_pos.load(MoRead)]: read, process; then terminate  *)
+(*                      _poll(): read what the writer positions [load(MoRead)] make visible into the transit buffers;  *)
+(*                               something pending: write ONE (lowest timestamp; a flush request: flush the sinks,    *)
+(*                               flag.store(true, MoFlushStore)); nothing pending: idle branch with the context        *)
+(*                               clean-up (is_valid() [MoIsValid], then empty() once more)                             *)
+(*                      _exit(): until every queue is empty: read, write everything; clean-up; terminate              *)
 (* The memory orders are CONSTANTS EXTRACTED from the code (harness/h_stop runs the REAL backend thread, the REAL      *)
-(* Backend::stop() and a REAL log call on the shim atomic of shim_ra.h). Two atomic objects, each a history of         *)
+(* Backend::stop(), flush_log() and log calls on the shim atomic of shim_ra.h). Atomic objects are histories of        *)
 (* messages [val, rel (clock published), ev (writer's clock at the store)]; a load may read any message that is not    *)
 (* older than (a) what the reader has already read of that object and (b) the newest message whose store               *)
 (* happens-before the reader; an acquire load joins the clock the message published; a read-modify-write reads the     *)
 (* last message and carries on its release sequence. Within one iteration every writer_pos load of B reads the same    *)
-(* message (a legal choice; different choices are different iterations).                                               *)
+(* message (a legal choice; different choices are different iterations); the clean-up's empty() reads that message     *)
+(* again unless the acquire on _valid has made it too old (then the oldest message still allowed).                     *)
+(* A sink write is a plain access: it ticks B's clock and remembers it (wclk); the caller of flush_log() can read the   *)
+(* destination without a data race iff that clock is below its own when the call returns.                              *)
 (* Not modelled: the wake-up mutex (B takes it only when sleep_duration > 0 and it only orders B behind a notify() it   *)
 (* was woken by; a backend that is busy, or configured with sleep_duration = 0 as the harness does, never takes it).   *)
 EXTENDS Integers, Sequences, FiniteSets, TLC, Json
-(* A second logging thread Y (MaxY > 0) logs, exits and is joined by X (thread join: X's clock joins Y's) - "including     *)
-(* statements of threads that already exited": what Y logged is owed by a stop that X requests after the join.            *)
-CONSTANTS MaxRecs,                              \* statements X logs before it stops the backend
+CONSTANTS MaxRecs,                              \* statements X logs
           MaxY,                                 \* statements Y logs before it exits (0: no second thread)
+          MaxFlush,                             \* flush_log() calls of X
           MoCommit, MoStop, MoLoop, MoRead,     \* "rlx" | "acq" | "rel" | "ar"
           MoInv, MoIsValid,                     \* ThreadContext::mark_invalid / is_valid (Y's context, read by the clean-up)
+          MoFlushStore, MoFlushLoad,            \* the backend's store to the flush flag, the caller's load
           Export
-VARIABLES W, R,             \* histories of X's writer_pos and of _is_worker_running (1 = running)
-          WY, nwy, yexited, joined, owedY, consumedY,   \* Y's writer_pos, its statements, exit, X joined it, owed at the stop
-          vrel, yremoved,   \* clock published by Y's mark_invalid; the backend has reclaimed Y's context
-          pending,          \* statements read into the transit buffers and not yet written (one is written per busy _poll)
+VARIABLES W, WY, R, FL,     \* histories: X's / Y's writer_pos (val = records committed), _is_worker_running (1 = running), the flush flag
           clk, view,        \* thread -> vector clock; thread -> [object -> oldest readable index]
-          nw, stopreq,      \* statements committed; stop() has been called
-          consumed, finished, lost, hist
-vars == <<W, R, WY, nwy, yexited, joined, owedY, consumedY, vrel, yremoved, pending, clk, view, nw, stopreq, consumed, finished, lost, hist>>
-yvars == <<WY, nwy, yexited, joined, owedY, consumedY, vrel, yremoved>>
+          st,               \* everything else (record, see Init)
+          hist
+vars == <<W, WY, R, FL, clk, view, st, hist>>
 T == {"X", "Y", "B"}
 Zero == [t \in T |-> 0]
 Join(a, b) == [t \in T |-> IF a[t] > b[t] THEN a[t] ELSE b[t]]
@@ -39,99 +48,138 @@ IsAcq(mo) == mo \in {"acq", "ar"}
 IsRel(mo) == mo \in {"rel", "ar"}
 Msg(v, rel, ev) == [val |-> v, rel |-> rel, ev |-> ev]
 Max(a, b) == IF a > b THEN a ELSE b
+Tick(c, t) == [c EXCEPT ![t] = @ + 1]
 
 Init ==
-  /\ W = <<Msg(0, Zero, Zero)>> /\ R = <<Msg(1, Zero, Zero)>>
-  /\ WY = <<Msg(0, Zero, Zero)>> /\ nwy = 0 /\ yexited = FALSE /\ joined = FALSE /\ owedY = 0 /\ consumedY = 0
-  /\ vrel = Zero /\ yremoved = FALSE /\ pending = 0
-  /\ clk = [t \in T |-> Zero] /\ view = [t \in T |-> [o \in {"W", "R", "WY"} |-> 1]]
-  /\ nw = 0 /\ stopreq = FALSE /\ consumed = 0 /\ finished = FALSE /\ lost = FALSE /\ hist = <<>>
+  /\ W = <<Msg(0, Zero, Zero)>> /\ WY = <<Msg(0, Zero, Zero)>> /\ R = <<Msg(1, Zero, Zero)>> /\ FL = <<Msg(0, Zero, Zero)>>
+  /\ clk = [t \in T |-> Zero] /\ view = [t \in T |-> [o \in {"W", "R", "WY", "FL"} |-> 1]]
+  /\ st = [xq |-> <<>>,            \* X's records in queue order: [k |-> "s" | "f", ts |-> call order]
+           yq |-> <<>>,            \* Y's records (timestamps)
+           gts |-> 0,              \* call order = timestamp order (the script runs the log calls one after the other)
+           consumed |-> 0, proc |-> 0, consumedY |-> 0, procY |-> 0,     \* records read into the transit buffers / written
+           yexited |-> FALSE, joined |-> FALSE, vrel |-> Zero, yremoved |-> FALSE,
+           stopreq |-> FALSE, owedX |-> 0, owedY |-> 0, finished |-> FALSE, lost |-> FALSE,
+           inflush |-> FALSE, nflush |-> 0, wclk |-> Zero, flushbad |-> FALSE]
+  /\ hist = <<>>
 Step(who, act, arg) == hist' = IF Export THEN Append(hist, [t |-> who, a |-> act, arg |-> arg]) ELSE hist
 
 \* oldest message of history H that a thread with clock c and view v may still read
 LoAt(H, c, v) == LET hb == {j \in 1..Len(H) : Leq(H[j].ev, c)} IN
                  LET m == IF hb = {} THEN 1 ELSE CHOOSE j \in hb : \A k \in hb : k <= j IN
                  IF m > v THEN m ELSE v
+NStmts(q, n) == Cardinality({i \in 1..n : q[i].k = "s"})
 
-\* X logs a statement: payload, then commit_write
+\* X commits one record of kind k (a statement or a flush request)
+XCommit(k) ==
+  LET c2 == Tick(clk["X"], "X") IN
+  /\ W' = Append(W, Msg(Len(st.xq) + 1, IF IsRel(MoCommit) THEN c2 ELSE Zero, c2))
+  /\ clk' = [clk EXCEPT !["X"] = c2] /\ view' = [view EXCEPT !["X"]["W"] = Len(W) + 1]
 XLog ==
-  /\ ~stopreq /\ nw < MaxRecs
-  /\ LET c2 == [clk["X"] EXCEPT !["X"] = @ + 1] IN
-     /\ W' = Append(W, Msg(nw + 1, IF IsRel(MoCommit) THEN c2 ELSE Zero, c2))
-     /\ clk' = [clk EXCEPT !["X"] = c2] /\ view' = [view EXCEPT !["X"]["W"] = Len(W) + 1]
-  /\ nw' = nw + 1 /\ Step("X", "log", <<>>)
-  /\ UNCHANGED <<R, stopreq, consumed, finished, lost, yvars, pending>>
+  /\ ~st.stopreq /\ ~st.inflush /\ NStmts(st.xq, Len(st.xq)) < MaxRecs
+  /\ XCommit("s")
+  /\ st' = [st EXCEPT !.xq = Append(@, [k |-> "s", ts |-> st.gts + 1]), !.gts = @ + 1]
+  /\ Step("X", "log", <<>>) /\ UNCHANGED <<WY, R, FL>>
+
+\* flush_log(): a fresh flag, the request through the queue; the caller then spins on the flag
+XFlushCall ==
+  /\ ~st.stopreq /\ ~st.inflush /\ st.nflush < MaxFlush
+  /\ XCommit("f")
+  /\ FL' = <<Msg(0, Zero, Zero)>>
+  /\ st' = [st EXCEPT !.xq = Append(@, [k |-> "f", ts |-> st.gts + 1]), !.gts = @ + 1, !.inflush = TRUE, !.nflush = @ + 1]
+  /\ Step("X", "flushcall", <<>>) /\ UNCHANGED <<WY, R>>
+\* the load that ends the spin: reads a `true` message; C06: everything X logged before the call is written, and readable
+XFlushReturn(i) ==
+  /\ st.inflush /\ i \in LoAt(FL, clk["X"], 1)..Len(FL) /\ FL[i].val = 1
+  /\ LET c1 == IF IsAcq(MoFlushLoad) THEN Join(clk["X"], FL[i].rel) ELSE clk["X"]
+         owed == NStmts(st.xq, Len(st.xq)) IN
+     /\ clk' = [clk EXCEPT !["X"] = c1]
+     /\ st' = [st EXCEPT !.inflush = FALSE,
+                         !.flushbad = @ \/ NStmts(st.xq, st.proc) < owed \/ ~Leq(st.wclk, c1)]
+  /\ Step("X", "flushret", <<>>) /\ UNCHANGED <<W, WY, R, FL, view>>
 
 \* Y logs, exits (its thread ends: the context is marked invalid), X joins it
 YLog ==
-  /\ ~yexited /\ nwy < MaxY
-  /\ LET c2 == [clk["Y"] EXCEPT !["Y"] = @ + 1] IN
-     /\ WY' = Append(WY, Msg(nwy + 1, IF IsRel(MoCommit) THEN c2 ELSE Zero, c2))
+  /\ ~st.yexited /\ Len(st.yq) < MaxY
+  /\ LET c2 == Tick(clk["Y"], "Y") IN
+     /\ WY' = Append(WY, Msg(Len(st.yq) + 1, IF IsRel(MoCommit) THEN c2 ELSE Zero, c2))
      /\ clk' = [clk EXCEPT !["Y"] = c2] /\ view' = [view EXCEPT !["Y"]["WY"] = Len(WY) + 1]
-  /\ nwy' = nwy + 1 /\ Step("Y", "log", <<>>)
-  /\ UNCHANGED <<W, R, nw, stopreq, consumed, finished, lost, yexited, joined, owedY, consumedY, vrel, yremoved, pending>>
+  /\ st' = [st EXCEPT !.yq = Append(@, st.gts + 1), !.gts = @ + 1]
+  /\ Step("Y", "log", <<>>) /\ UNCHANGED <<W, R, FL>>
 YExit ==
-  /\ MaxY > 0 /\ ~yexited /\ yexited' = TRUE /\ Step("Y", "exit", <<>>)
-  /\ LET c2 == [clk["Y"] EXCEPT !["Y"] = @ + 1] IN
-     /\ clk' = [clk EXCEPT !["Y"] = c2] /\ vrel' = IF IsRel(MoInv) THEN c2 ELSE Zero
-  /\ UNCHANGED <<W, R, WY, nwy, joined, owedY, consumedY, yremoved, pending, view, nw, stopreq, consumed, finished, lost>>
+  /\ MaxY > 0 /\ ~st.yexited
+  /\ LET c2 == Tick(clk["Y"], "Y") IN
+     /\ clk' = [clk EXCEPT !["Y"] = c2]
+     /\ st' = [st EXCEPT !.yexited = TRUE, !.vrel = IF IsRel(MoInv) THEN c2 ELSE Zero]
+  /\ Step("Y", "exit", <<>>) /\ UNCHANGED <<W, WY, R, FL, view>>
 XJoin ==
-  /\ yexited /\ ~joined /\ ~stopreq /\ joined' = TRUE
-  /\ clk' = [clk EXCEPT !["X"] = Join(@, clk["Y"])] /\ Step("X", "join", <<>>)
-  /\ UNCHANGED <<W, R, WY, nwy, yexited, owedY, consumedY, vrel, yremoved, pending, view, nw, stopreq, consumed, finished, lost>>
+  /\ st.yexited /\ ~st.joined /\ ~st.stopreq /\ ~st.inflush
+  /\ clk' = [clk EXCEPT !["X"] = Join(@, clk["Y"])]
+  /\ st' = [st EXCEPT !.joined = TRUE]
+  /\ Step("X", "join", <<>>) /\ UNCHANGED <<W, WY, R, FL, view>>
 
 \* X requests the stop: the exchange on the running flag (a read-modify-write: reads the last message)
 XStop ==
-  /\ ~stopreq /\ stopreq' = TRUE
+  /\ ~st.stopreq /\ ~st.inflush
   /\ LET last == R[Len(R)]
          c1 == IF IsAcq(MoStop) THEN Join(clk["X"], last.rel) ELSE clk["X"]
-         c2 == [c1 EXCEPT !["X"] = @ + 1] IN
+         c2 == Tick(c1, "X") IN
      /\ R' = Append(R, Msg(0, IF IsRel(MoStop) THEN Join(last.rel, c2) ELSE last.rel, c2))
      /\ clk' = [clk EXCEPT !["X"] = c2] /\ view' = [view EXCEPT !["X"]["R"] = Len(R) + 1]
-  /\ owedY' = IF joined THEN nwy ELSE 0
-  /\ Step("X", "stop", <<>>)
-  /\ UNCHANGED <<W, nw, consumed, finished, lost, WY, nwy, yexited, joined, consumedY, vrel, yremoved, pending>>
+  /\ st' = [st EXCEPT !.stopreq = TRUE, !.owedX = Len(st.xq), !.owedY = IF st.joined THEN Len(st.yq) ELSE 0]
+  /\ Step("X", "stop", <<>>) /\ UNCHANGED <<W, WY, FL>>
+
+\* B writes the pending records with index > px / > py up to cx / cy, at most `limit` of them, lowest timestamp first.
+\* Returns [px, py, clkB, wclk, fl]: fl = the flush flag's history after the stores made on the way.
+RECURSIVE Process(_, _, _, _, _, _, _, _)
+Process(px, py, cx, cy, limit, cb, wc, fl) ==
+  IF limit = 0 \/ (px = cx /\ py = cy) THEN [px |-> px, py |-> py, cb |-> cb, wc |-> wc, fl |-> fl]
+  ELSE LET takeX == px < cx /\ (py = cy \/ st.xq[px + 1].ts < st.yq[py + 1]) IN
+       IF ~takeX THEN Process(px, py + 1, cx, cy, limit - 1, Tick(cb, "B"), wc, fl)               \* a statement of Y: a sink write
+       ELSE IF st.xq[px + 1].k = "s"
+            THEN LET c2 == Tick(cb, "B") IN Process(px + 1, py, cx, cy, limit - 1, c2, c2, fl)    \* a statement of X: a sink write
+            ELSE LET c2 == Tick(cb, "B") IN                                                        \* a flush request: the flag store
+                 Process(px + 1, py, cx, cy, limit - 1, c2, wc, Append(fl, Msg(1, IF IsRel(MoFlushStore) THEN c2 ELSE Zero, c2)))
 
 \* B evaluates the head of its loop (reads message ir of the flag); running: one _poll(); stopped: _exit() and termination.
-\* Every writer_pos load of the iteration reads message iw; everything it makes visible is consumed.
-\* After its reads: a running iteration writes ONE pending statement (below the soft limit) or, with nothing pending, takes the idle
-\* branch; the terminating iteration (_exit) writes everything. The idle branch and _exit end with the context clean-up: for an
-\* exited thread is_valid() [the newest message: the flag is not scripted] and, if invalid, empty() once more - that load reads iy
-\* again unless the acquire on the flag has made it too old (then the oldest message still allowed); empty: the context is reclaimed.
 BIter(ir, iw, iy) ==
-  /\ ~finished /\ ir \in LoAt(R, clk["B"], view["B"]["R"])..Len(R)
+  /\ ~st.finished /\ ir \in LoAt(R, clk["B"], view["B"]["R"])..Len(R)
   /\ LET c1 == IF IsAcq(MoLoop) THEN Join(clk["B"], R[ir].rel) ELSE clk["B"]
          lo == LoAt(W, c1, view["B"]["W"]) IN
      /\ iw \in lo..Len(W)
      /\ LET c2 == IF IsAcq(MoRead) THEN Join(c1, W[iw].rel) ELSE c1      \* X's context is read first (registration order)
             loy == LoAt(WY, c2, view["B"]["WY"])
-            iyy == IF yremoved THEN view["B"]["WY"] ELSE iy
-            c3 == IF IsAcq(MoRead) /\ ~yremoved THEN Join(c2, WY[iyy].rel) ELSE c2
-            cx == Max(consumed, W[iw].val)
-            cy == IF yremoved THEN consumedY ELSE Max(consumedY, WY[iyy].val)
-            pend == pending + (cx - consumed) + (cy - consumedY)
+            iyy == IF st.yremoved THEN view["B"]["WY"] ELSE iy
+            c3 == IF IsAcq(MoRead) /\ ~st.yremoved THEN Join(c2, WY[iyy].rel) ELSE c2
+            cx == Max(st.consumed, W[iw].val)
+            cy == IF st.yremoved THEN st.consumedY ELSE Max(st.consumedY, WY[iyy].val)
             stop == R[ir].val = 0
-            cleanup == (stop \/ pend = 0) /\ yexited /\ ~yremoved
-            c4 == IF cleanup /\ IsAcq(MoIsValid) THEN Join(c3, vrel) ELSE c3
+            idle == cx = st.proc /\ cy = st.procY
+            p == Process(st.proc, st.procY, cx, cy, IF stop THEN 1000 ELSE 1, c3, st.wclk, FL)
+            cleanup == (stop \/ idle) /\ st.yexited /\ ~st.yremoved
+            c4 == IF cleanup /\ IsAcq(MoIsValid) THEN Join(p.cb, st.vrel) ELSE p.cb
             lo4 == LoAt(WY, c4, iyy)
             iy2 == IF cleanup THEN lo4 ELSE 0 IN
-        /\ iy \in loy..Len(WY) /\ (yremoved => iy = view["B"]["WY"])
+        /\ iy \in loy..Len(WY) /\ (st.yremoved => iy = view["B"]["WY"])
         /\ clk' = [clk EXCEPT !["B"] = IF cleanup /\ IsAcq(MoRead) THEN Join(c4, WY[iy2].rel) ELSE c4]
         /\ view' = [view EXCEPT !["B"]["R"] = ir, !["B"]["W"] = iw, !["B"]["WY"] = IF cleanup THEN iy2 ELSE iyy]
-        /\ consumed' = cx /\ consumedY' = cy
-        /\ pending' = IF stop THEN 0 ELSE IF pend > 0 THEN pend - 1 ELSE 0
-        /\ yremoved' = (yremoved \/ (cleanup /\ WY[iy2].val = cy))
-        /\ finished' = stop
-        /\ lost' = (stop /\ (cx < nw \/ cy < owedY))
-        /\ Step("B", "iter", <<ir, iw, iyy, iy2, IF yremoved THEN 1 ELSE 0>>)
-  /\ UNCHANGED <<W, R, nw, stopreq, WY, nwy, yexited, joined, owedY, vrel>>
+        /\ FL' = p.fl
+        /\ st' = [st EXCEPT !.consumed = cx, !.consumedY = cy, !.proc = p.px, !.procY = p.py, !.wclk = p.wc,
+                            !.yremoved = @ \/ (cleanup /\ WY[iy2].val = cy),
+                            !.finished = stop,
+                            !.lost = stop /\ (p.px < st.owedX \/ p.py < st.owedY)]
+        /\ Step("B", "iter", <<ir, iw, iyy, iy2, IF st.yremoved THEN 1 ELSE 0>>)
+  /\ UNCHANGED <<W, WY, R>>
 
-Next == XLog \/ XStop \/ YLog \/ YExit \/ XJoin \/ (\E ir \in 1..Len(R), iw \in 1..Len(W), iy \in 1..Len(WY) : BIter(ir, iw, iy))
+Next == XLog \/ XStop \/ XFlushCall \/ (\E i \in 1..Len(FL) : XFlushReturn(i)) \/ YLog \/ YExit \/ XJoin
+        \/ (\E ir \in 1..Len(R), iw \in 1..Len(W), iy \in 1..Len(WY) : BIter(ir, iw, iy))
 Spec == Init /\ [][Next]_vars
 
-\* C07: the backend thread terminates only after every statement committed before the stop request has been read
-NoLoss == ~lost
-TypeOK == consumed <= nw /\ consumedY <= nwy /\ (finished => stopreq) /\ (joined => yexited) /\ owedY <= nwy
-StateView == <<W, R, WY, nwy, yexited, joined, owedY, consumedY, vrel, yremoved, pending, clk, view, nw, stopreq, consumed, finished, lost>>
+\* C07: the backend thread terminates only after every statement committed before the stop request has been written
+NoLoss == ~st.lost
+\* C06: flush_log() returns only when the caller's earlier statements are written, and ordered before the caller
+FlushOK == ~st.flushbad
+TypeOK == /\ st.proc <= st.consumed /\ st.consumed <= Len(st.xq) /\ st.procY <= st.consumedY /\ st.consumedY <= Len(st.yq)
+          /\ (st.finished => st.stopreq) /\ (st.joined => st.yexited) /\ st.owedY <= Len(st.yq)
+StateView == <<W, WY, R, FL, clk, view, st>>
 ExportA == Export => PrintT("BEH " \o ToJson(hist'))
 =============================================================================
